@@ -14,8 +14,8 @@ Everything is emitted as plain nested lists/tuples of N (Generated.v knows no mo
 """
 import os, re, struct
 
-# modelled hand-written pairs keep fixed indices 0..5 (Typed/Hand.v hid_*)
-HAND_FIRST = ["Date", "Rectangle", "Matrix", "Action", "NameTree<Primitive>", "PagesRc"]
+# modelled hand-written pairs keep fixed indices 0..6 (Typed/Hand.v hid_*)
+HAND_FIRST = ["Date", "Rectangle", "Matrix", "Action", "NameTree<Primitive>", "PagesRc", "Encoding"]
 
 PRIMS = {"i32": 0, "u32": 1, "usize": 2, "f32": 3, "bool": 4, "Name": 5, "PdfString": 6, "Primitive": 7,
          "Dictionary": 8, "PlainRef": 9, "()": 10}
@@ -497,3 +497,23 @@ def extract(g, X):
         null = re.search(r"if\s+let\s+Ok\(\s*(\w+)\s*\)\s*=\s*T::from_primitive\(\s*Primitive::Null\s*,\s*\w+\s*\)\s*\{\s*\w+\.push\(\s*\1\s*\)", b)
         return "true" if (guard and isref and null) else "false"
     g.attempt([("vec_missing_element_null", "bool")], "object/mod.rs:impl Object for Vec<T>", vec_reader)
+
+    # ---- font.rs: FontData::mapped_keys — the keys Font's writer never takes from `_other` (fix C15-e) ----------------
+    font = X.strip_comments(X.read("pdf/src/font.rs"))
+
+    def font_keys():
+        b = X.fn_body(font, "mapped_keys")
+        out = []
+        for variants in (r"FontData::Type1\(_\)\s*\|\s*FontData::TrueType\(_\)", r"FontData::Type0\(_\)"):
+            m = re.search(variants + r"\s*=>\s*Some\(\s*&\[([^\]]*)\]\s*\)", b)
+            if not m:
+                raise ValueError("mapped_keys arm")
+            out.append("[" + "; ".join(cbytes(k) for k in re.findall(r'"([^"]*)"', m.group(1))) + "]")
+        if not re.search(r"_\s*=>\s*None", b):
+            raise ValueError("mapped_keys default arm")
+        fb = X.item_body(font, r"impl\s+ObjectWrite\s+for\s+Font\s*\{", "impl ObjectWrite for Font")
+        merged = re.search(r"if\s+let\s+Some\(\s*mapped\s*\)\s*=\s*self\.data\.mapped_keys\(\)\s*\{\s*for\s*\(\s*key\s*,\s*value\s*\)\s*in\s+self\._other\.iter\(\)\s*\{\s*"
+                           r"if\s*!mapped\.contains\(&key\.as_str\(\)\)\s*&&\s*dict\.get\(key\.as_str\(\)\)\.is_none\(\)\s*\{\s*dict\.insert\(key\.clone\(\),\s*value\.clone\(\)\)", fb)
+        return out[0], out[1], ("true" if merged else "false")
+    g.attempt([("font_mapped_keys_tfont", "list (list N)"), ("font_mapped_keys_type0", "list (list N)"), ("font_writer_merges_other", "bool")],
+              "font.rs:FontData::mapped_keys / impl ObjectWrite for Font", font_keys)
